@@ -345,7 +345,7 @@ def run(ctx):
         cases = [ctx.replay["case"]] if "case" in ctx.replay and "ops" in ctx.replay["case"] else []
     else:
         cases = corpus()
-        n = 10 if ctx.quick() else 120
+        n = 10 if ctx.quick() else 60
         cases += [gen_history(ctx.rng, ctx.quick(), with_legacy=(i % 3 == 2)) for i in range(n)]
     for i, c in enumerate(cases):
         c["id"] = i
@@ -366,7 +366,7 @@ def run(ctx):
 
 def search(ctx):
     common.build_harness()
-    cases = [gen_history(ctx.rng, False, with_legacy=(i % 2 == 0)) for i in range(60)]
+    cases = [gen_history(ctx.rng, True, with_legacy=(i % 2 == 0)) for i in range(12)]
     for i, c in enumerate(cases):
         c["id"] = i
     stats, distinct = evaluate(ctx, cases)
